@@ -19,6 +19,11 @@ structure RBuf where
 /-- diskbuffer: the temp file (and its descriptor) exists once the memory part is full, until Close -/
 def RBuf.hasFile (b : RBuf) : Bool := !b.closed && b.size ≥ b.max
 
+/-- diskbuffer Close: closes and removes the temp file IF there is one (the file part stays closed for good: later writes
+    into it fail and create nothing). A buffer that has not spilled yet is not touched at all: Close is not terminal for
+    it — bytes written afterwards may still spill, and only a later Close removes that file. -/
+def RBuf.shut (b : RBuf) : RBuf := if b.size ≥ b.max then { b with closed := true } else b
+
 structure RHandle where
   bufs : List Nat     -- buffers its Close closes (indices into `bufs`)
   fd : Bool           -- a file reader's descriptor
@@ -45,7 +50,7 @@ namespace RState
 
 def init : RState := ⟨[], []⟩
 
-def closeBuf (bufs : List RBuf) (i : Nat) : List RBuf := bufs.modify i (fun b => { b with closed := true })
+def closeBuf (bufs : List RBuf) (i : Nat) : List RBuf := bufs.modify i RBuf.shut
 
 def closeBufs (bufs : List RBuf) (is : List Nat) : List RBuf := is.foldl closeBuf bufs
 
